@@ -145,9 +145,67 @@ PROPS = {
              "entry_ref, extend/from_iter are modelled (Hb/Model/Entry.lean) and tied + judged by the reference oracle, but "
              "their refinement is not in history_refines (they reduce to find/insert paths proved here); listed as partial.",
     ),
+    "C02": dict(
+        module="Hb.Props.C02",
+        ties=[("scen", "mixed", 300, 10000), ("scen", "saturate", 80, 3000), ("scen", "entry-full", 120, 4000),
+              ("scen", "table", 150, 5000), ("scen", "set", 100, 3000), ("scen", "iter", 100, 3000),
+              ("scen", "panic-mixed", 4, 120), ("scen", "reserve", 100, 3000)],
+        backends=["sse2", "portable"],
+        design="§7 C02",
+        text="Proof of the index/ownership logic: in the Lean model every raw access is checked (control byte outside "
+             "[0, n+W), write to the static singleton, slot outside the table, read/drop of a dead slot, write over a live slot, "
+             "unwrap_unchecked(None), usize underflow, non-terminating loop => `fault`). Theorem run_safe: for EVERY environment "
+             "(any hasher incl. all-colliding/inconsistent, panicking callbacks, refusing allocator), every history of the "
+             "modelled calls incl. forgetting a part-consumed drain, `fault` is unreachable and the API invariant holds after "
+             "every call (returned or unwound); a forgotten drain leaves the valid empty singleton; element regions of the "
+             "layout are pairwise disjoint, inside the block and aligned (from C17). Tie: full dumps after every call on "
+             "histories over element layouts (32..200 bytes, align 8..64, odd 5-byte/align-1, zero-sized in tables), tables "
+             "smaller/equal/larger than a group, both back-ends, debug assertions and overflow checks on; direct oracles on the "
+             "real collections: structural invariant, slot addresses (alignment, position below the control bytes, group-aligned "
+             "control bytes), checking allocator (exact layout on dealloc, poisoned fresh/freed memory), ownership ledger.",
+        note="PARTIAL for the machine level: the model cannot exhibit pointer provenance/aliasing (Stacked/Tree Borrows), reads of "
+             "uninitialised bytes as such, the SIMD loads or code generation; those are only exercised by the supporting "
+             "validation above (not proof). Trusted: Lean kernel, axioms propext/Classical.choice/Quot.sound; harness/hooks. "
+             "Entry objects and iterators being forgotten mid-use are covered for drain (theorem) and by the tie for entries.",
+    ),
+    "C03": dict(
+        module="Hb.Props.C03",
+        ties=[("scen", "mixed", 300, 10000), ("scen", "iter", 150, 4000), ("scen", "entry", 150, 4000),
+              ("scen", "table", 120, 4000), ("scen", "set", 100, 3000), ("scen", "reserve", 100, 3000)],
+        backends=["sse2", "portable"],
+        design="§7 C03",
+        text="Lean ledger theorems for every environment in which the calls return: for every history from new() (insert, remove, "
+             "remove_entry, overwrite, clear, retain, extract_if and drain at every cut point, reserve/shrink) the key-object and "
+             "value-object identities satisfy stored ++ dropped-by-the-collection ++ returned-to-the-caller = inserted as "
+             "multisets (so with distinct ids: each exactly once, a returned value is never also dropped); after dropping the "
+             "collection nothing is stored; the allocator log is balanced (every alloc has exactly one later free with the same "
+             "layout, nothing live at the end); a never-allocated collection owns no block. into_iter and clone_from accounting: "
+             "intoIter_spec / cloneFrom_spec. Tie: drop events (per object id) and allocator events (size/align) of every call "
+             "compared with the model, element types with and without drop glue, tape allocator; direct oracles: ownership "
+             "ledger on the real run (double drop, leak), allocator ledger (layout mismatch, leaked block at scenario end).",
+        note="Trusted: Lean kernel, axioms propext/Classical.choice/Quot.sound; harness (drop/alloc instrumentation), hooks. The "
+             "ledger theorems speak about calls that return; unwound calls are covered by C04 (at most once, leaks only after a "
+             "destructor panic).",
+    ),
+    "C05": dict(
+        module="Hb.Props.C05",
+        ties=[("scen", "broken-hash", 200, 6000), ("scen", "broken-eq", 200, 6000), ("scen", "broken-both", 150, 5000)],
+        backends=["sse2", "portable"],
+        design="§7 C05",
+        text="Lean theorems quantified over ARBITRARY environments (hash and eq answers are functions of the call number: "
+             "different hashes for one key, equal keys with different hashes, non-equivalence Eq, fresh pseudo-random answers): "
+             "`fault` is unreachable, every call terminates (all loops within their fuel), the structural invariant holds after "
+             "every call, len = number of elements yielded by iteration/drain, every stored element is dropped exactly once "
+             "(ledger). None of these proofs mentions the hash-dependent invariant. Tie: histories executed with call-dependent "
+             "pseudo-random Hash and/or Eq tapes (identical splitmix in Rust and Lean) with full dumps compared; direct oracles: "
+             "structural invariant, ownership ledger, iteration count = len on the real collection.",
+        note="Trusted: Lean kernel, axioms propext/Classical.choice/Quot.sound; harness, hooks. Termination on the real code is "
+             "observed as completion of the runs.",
+    ),
     "C04": dict(
         module="Hb.Props.C04",
-        ties=[("scen", "panic-sat-nodrop", 6, 150), ("scen", "panic-sat-drop", 6, 150), ("scen", "panic-mixed", 8, 200)],
+        ties=[("scen", "panic-sat-nodrop", 6, 150), ("scen", "panic-sat-drop", 6, 150), ("scen", "panic-mixed", 8, 200),
+              ("scen", "panic-entry", 5, 120), ("scen", "entry", 150, 4000), ("scen", "panic-table", 4, 100), ("scen", "panic-set", 3, 80)],
         backends=["sse2", "portable"],
         design="§7 C04, §10 F1",
         text="Lean theorems for every environment, table state and panic position: a hasher panic inside resize leaves the "
@@ -161,6 +219,59 @@ PROPS = {
         note="Trusted: Lean kernel, axioms propext/Classical.choice/Quot.sound; harness, hooks, protocol. Callback classes "
              "Into (entry_ref) and extend-iterator panics are covered by the entry profile once C14's tie is present. Panics "
              "inside Drop while already unwinding abort the process by Rust's rules and are excluded.",
+    ),
+    "C06": dict(
+        module="Hb.Props.C06",
+        ties=[("scen", "table", 300, 10000), ("scen", "table-churn", 120, 4000), ("scen", "panic-table", 4, 100)],
+        backends=["sse2", "portable"],
+        design="§7 C06",
+        text="Lean theorems over the table invariant TblInv (structural invariant + every element tagged with and reachable "
+             "along the probe sequence of its caller-supplied hash; NO key-distinctness: a HashTable is a multiset) for every "
+             "assignment of 64-bit hashes (function H, arbitrary collisions in position and tag bits) and arbitrary equality "
+             "closures: find returns a stored element accepted by the closure whenever one exists with that hash, never "
+             "anything not stored; len counts duplicates; insert_unique / OccupiedEntry::remove + VacantEntry::insert into the "
+             "same bucket / entry / retain / extract_if / drain / clear / reserve / shrink / get_many_mut all preserve TblInv "
+             "(incl. resize and in-place rehash without nodup); iter_hash(h) yields every stored element with hash h and no "
+             "bucket twice, for every table size (also smaller than a group). Tie: table and table-churn profiles (duplicates, "
+             "colliding hashes, tombstone build-up, zero-sized and over-aligned elements) with full dumps compared; direct "
+             "oracle: reference multiset + iter_hash output on the real table.",
+        note="Trusted: Lean kernel, axioms propext/Classical.choice/Quot.sound; harness, hooks, protocol. Panic outcomes of the "
+             "operations that run the rehash closure are left unconstrained in C06's theorems (covered by C04).",
+    ),
+    "C14": dict(
+        module="Hb.Props.C14",
+        ties=[("scen", "entry-full", 250, 8000), ("scen", "entry", 250, 8000), ("scen", "set", 150, 5000), ("scen", "panic-entry", 4, 100)],
+        backends=["sse2", "portable"],
+        design="§7 C14",
+        text="Lean theorems for every state satisfying the representation invariant (in particular growth_left = 0, tombstone-"
+             "saturated, unallocated) and every key: entry / entry_ref / raw_entry_mut (from_key, from_key_hashed_nocheck, "
+             "from_hash) / rustc_entry / HashSet::entry report Occupied exactly when the key is present; every chain of every "
+             "family (insert, or_insert*, and_modify, insert_key, remove, remove_entry, replace_entry_with, "
+             "and_replace_entry_with, vac_insert*, key, drop) has the return value, contents (up to permutation) and drop log of "
+             "the equivalent get/insert/remove sequence (total per-chain tables); an unused Vacant entry leaves contents and len "
+             "unchanged (rustc_entry may have grown capacity); rustc_entry's reserve-then-insert_no_grow never faults for ANY "
+             "environment; extend/from_iter = fold of insert; try_insert. Tie: entry and entry-full profiles (states steered to "
+             "capacity()==len(), tombstone saturation, unallocated) incl. panicking closures, full dumps compared; direct "
+             "oracle: reference association list for every chain.",
+        note="Trusted: Lean kernel, axioms propext/Classical.choice/Quot.sound; harness, hooks, protocol. Raw builders with a "
+             "caller-supplied hash are specified under their documented contract (the hash is the key's hash); a machine-"
+             "checked counterexample shows the contract is necessary.",
+    ),
+    "C15": dict(
+        module="Hb.Props.C15",
+        ties=[("scen", "table", 300, 10000), ("scen", "entry", 200, 6000)],
+        backends=["sse2", "portable"],
+        design="§7 C15, §10 F2",
+        text="Lean theorems for every environment (unlawful closures included): get_many_mut returns N results in request "
+             "order, each found request its own live bucket, the found buckets pairwise distinct, writes land exactly in those "
+             "buckets and nowhere else, or the call panics iff two requests resolve to the same bucket; with a lawful closure "
+             "present keys yield their own entry and absent keys None (HashMap::get_many_mut / get_many_key_value_mut and "
+             "HashTable::get_many_mut). F2 (zero-sized elements) is witnessed by evaluation next to the general theorem. Tie: "
+             "all request tuples N = 0..4 incl. duplicates, absent and colliding keys and closures matching several entries, on "
+             "sized, over-aligned and zero-sized element types, with the written values visible in the dump; direct oracle: "
+             "a panic for requests that resolve to distinct entries is reported.",
+        note="Trusted: Lean kernel, axioms propext/Classical.choice/Quot.sound; harness, hooks, protocol. Address distinctness of "
+             "distinct buckets for sized elements is C02/C17's layout theorem plus the layout oracle.",
     ),
     "C07": dict(
         module="Hb.Props.C07",
@@ -195,6 +306,42 @@ PROPS = {
         note="Trusted: Lean kernel, axioms propext/Classical.choice/Quot.sound; harness, hooks, protocol. clear/drain keeping "
              "the allocation: theorem in Hb.Proofs.ApiBulk when present, otherwise by tie + direct oracle only. HashSet/"
              "HashTable share RawTable::reserve/shrink_to; their wrappers are tied by the set/table profiles.",
+    ),
+    "C10": dict(
+        module="Hb.Props.C10",
+        ties=[("scen", "mixed", 300, 10000), ("scen", "iter", 150, 4000), ("scen", "table", 150, 5000),
+              ("scen", "set", 120, 4000), ("scen", "panic-mixed", 4, 120)],
+        backends=["sse2", "portable"],
+        design="§7 C10",
+        text="Lean theorems for every environment (arbitrary per-call predicate answers incl. panics) and every table state "
+             "satisfying the API invariant: retain calls the predicate exactly once per element in bucket order, keeps exactly "
+             "the true-answered ones with the payloads written through &mut, drops the others exactly once (every subset of "
+             "the stored elements is realised by some pure predicate); extract_if yields exactly the visited-and-true elements, "
+             "unvisited ones stay (early drop), nothing is dropped by the collection; drain at every cut point k: yields the "
+             "first min(k,len) elements, drops the rest once, leaves the same allocation emptied and valid; a forgotten drain "
+             "leaves a valid empty collection; erase-behind-the-iterator lemma. HashSet/HashTable variants are the same code "
+             "(rfl). Tie: retain/extract_if(k)/drain(k, forget)/into_iter(k) under pseudo-random predicate tapes with mutation, "
+             "for maps, sets and tables, full dumps + drop events compared; direct oracle: reference filter on the real run.",
+        note="Trusted: Lean kernel, axioms propext/Classical.choice/Quot.sound (EqSpec imports Batteries.Data.List.Perm); "
+             "harness, hooks, protocol.",
+    ),
+    "C11": dict(
+        module="Hb.Props.C11",
+        ties=[("scen", "clone", 250, 8000), ("scen", "mixed", 200, 6000), ("scen", "table", 100, 3000), ("scen", "set", 100, 3000),
+              ("scen", "panic-mixed", 4, 120)],
+        backends=["sse2", "portable"],
+        design="§7 C11",
+        text="Lean theorems: clone() yields a table with the same control bytes and position-wise clones (same key/value, "
+             "identities = the Clone oracle's answers, disjoint from the source's when the oracle is fresh); clone_from into a "
+             "target in ANY state drops the target's old elements once and gives clones of the source (four paths: "
+             "unallocated source, same bucket count, different bucket count, panic); both preserve the hash-dependent invariant; "
+             "== is true exactly when both maps are the same finite map k -> v, for independently (differently) hashed sides, "
+             "any layouts/capacities/tombstones, and is symmetric; a clone compares equal to its source. Independence is by "
+             "construction in the value-semantic model; for the real code it is what the tie checks. Tie: clone-pairs profile "
+             "(clone / clone_from between two collections in all size relations, then mutate either side and compare == both "
+             "ways), full dumps + clone/drop/alloc events compared; direct oracle: reference equality, fresh identities.",
+        note="Trusted: Lean kernel, axioms propext/Classical.choice/Quot.sound; harness, hooks, protocol. The tape allocator is "
+             "one zero-sized type, so cross-allocator ownership of the clone's block is not observable here (see DESIGN catches).",
     ),
     "C12": dict(
         module="Hb.Props.C12",
